@@ -58,7 +58,7 @@ func exitStub(pkgPath string) engine.Intrinsic {
 
 func checkC04(c *Ctx) {
 	jobs := actionKernelJobs(c)
-	tm := &Target{ModDir: "/repo", PkgDir: "/repo", PkgPath: RepoMod, PkgName: "main", Harness: []string{VerifRoot + "/harness/main/c04.go"}}
+	tm := &Target{ModDir: RepoRoot, PkgDir: RepoRoot, PkgPath: RepoMod, PkgName: "main", Harness: []string{VerifRoot + "/harness/main/c04.go"}}
 	for _, nconf := range []int{0, 1, 2} {
 		req := []string{"returned"}
 		if nconf > 0 {
@@ -153,7 +153,7 @@ func c04PipelineJobs(c *Ctx) []Job {
 	dir, _ := os.MkdirTemp(c.Scratch, "c04data")
 	data := filepath.Join(dir, "c04data.go")
 	os.WriteFile(data, []byte(b.String()), 0o644)
-	tm := &Target{ModDir: "/repo", PkgDir: "/repo", PkgPath: RepoMod, PkgName: "main", Harness: []string{VerifRoot + "/harness/main/c04.go", VerifRoot + "/harness/main/c14.go", VerifRoot + "/harness/main/c04pipe.go", data}}
+	tm := &Target{ModDir: RepoRoot, PkgDir: RepoRoot, PkgPath: RepoMod, PkgName: "main", Harness: []string{VerifRoot + "/harness/main/c04.go", VerifRoot + "/harness/main/c14.go", VerifRoot + "/harness/main/c04pipe.go", data}}
 	exit := func(e *engine.Engine, st *engine.St, args []engine.Value, call *ssa.CallCommon) (engine.Value, bool) {
 		conflict := e.ReadGlobal(st, RepoMod, "verifC04Conflict").(*engine.T)
 		auto := e.ReadGlobal(st, RepoMod, "verifC04Auto").(*engine.T)
